@@ -126,7 +126,7 @@ func body(sp spec) {
 		if len(msgs) > 0 {
 			from = msgs[0].Metadata.Get("from")
 		}
-		po := hx.PubOutcome(vs.Choose(5, 0, "publisher outcome")) // ok, error, panic, error after accepting, error wrapping context.Canceled
+		po := hx.PubOutcome(vs.Choose(6, 0, "publisher outcome")) // ok, error, panic, error after accepting, error wrapping context.Canceled, error with no cause underneath
 		// the outputs of one consumed message may reach the publisher in one call or in several: they count as
 		// accepted only if every one of those calls succeeded
 		if prev, seen := pubOutcome[from]; !seen || prev == hx.PubOK {
